@@ -48,6 +48,7 @@ class _W(object):
         self.out = []
         self.probes = {}
         self.fail_serials = set(case.get("fail_serials", []))
+        self.plain_mode = bool(case.get("plain_result")) and case.get("target") == "per_instance"
 
     def probe(self, k):
         self.probes[k] = self.probes.get(k, 0) + 1
@@ -68,6 +69,21 @@ class _W(object):
             self.none_runs.append((key, s))
             return None  # a legitimate result that happens to be None
         return (who, a, b, c, s)
+
+
+def _plain_body(W, who, a, b, c):
+    """The same body as _W.body, written as a plain (non-generator) function: never blocks."""
+    W.serial += 1
+    s = W.serial
+    key = (who, a, b, c)
+    W.log.append(("start", s, key))
+    W.log.append(("end", s, key))
+    if a >= 8 or (s in W.fail_serials and a != 4):
+        raise SimError("body:%r#%d" % (key, s))
+    if a == 4:
+        W.none_runs.append((key, s))
+        return None
+    return (who, a, b, c, s)
 
 
 class _Skip(Exception):
@@ -145,7 +161,8 @@ class C13(object):
                 # the n-th body run of the history fails (whatever its key)
                 "fail_serials": sorted(rng.sample(range(1, 13), rng.randint(1, 3))) if rng.random() < 0.3 else [],
                 # one configured decorator object applied to two functions
-                "shared_deco": rng.random() < 0.3}
+                "shared_deco": rng.random() < 0.3,
+                "plain_result": sum(len(st) for st in steps) % 3 == 0}
 
     def sample(self, case, r):
         return case
@@ -233,7 +250,7 @@ class C13(object):
                 W.out.append(("miss-ran-body", "step %d: call %r is a miss in the reference cache but was served the result of an earlier body run %r" % (step_no, (who, a, b, c), res[1])))
                 return
             self.seen.add(res[1][4])
-            if a % 2 == 0:
+            if a % 2 == 0 or W.plain_mode:
                 ref.put(k, res[1])
             else:
                 pending.append((res[1][4], k, res[1]))
@@ -313,10 +330,17 @@ class C13(object):
             def __init__(self, n):
                 self.n = n
 
-            @acached_per_instance()
-            @A.asynq()
-            def m(self, a, b=0, *, c=0):
-                return (yield from W.body(self.n, a, b, c))
+            if case.get("plain_result"):
+                # a plain (non-generator) body that hands its value back through asynq.result()
+                @acached_per_instance()
+                @A.asynq()
+                def m(self, a, b=0, *, c=0):
+                    A.result(_plain_body(W, self.n, a, b, c))
+            else:
+                @acached_per_instance()
+                @A.asynq()
+                def m(self, a, b=0, *, c=0):
+                    return (yield from W.body(self.n, a, b, c))
         # instance 1 is falsy (an empty container): truth value must not matter for its cache
         FK = type("FK", (K,), {"__len__": lambda self: 0})
         gen_no = [0, 0, 0]
